@@ -70,6 +70,7 @@ func (s *BoltStore) Get(name enc.Name, prefix bool) (wire []byte, err error) {
 				}
 				ver := binary.BigEndian.Uint64(v[:8])
 				if ver > maxVer {
+					maxVer = ver
 					wire = v[8:]
 				}
 			}
